@@ -3,6 +3,7 @@
 -/
 import OptreeModel.Model.Inspect
 import OptreeModel.Lemmas.EncPaths
+import OptreeModel.Lemmas.UpToSelf
 
 namespace Optree
 
@@ -217,6 +218,26 @@ theorem C04_paths_prefix_freeL : ∀ (cs : List STree) (es pre : List Key), es.N
       have hne : e ≠ e' := fun heq => hnd.1 (heq ▸ he')
       exact incomparable_of_entries pre p q e e' hne (STree.pathsT_prefix c (pre ++ [e]) p hp) hq'
 end
+
+/-- **the i-th path addresses the i-th leaf**: following `treespec.paths()[i]` from the tree (position in a
+sequence, key in a dict, the registration's entry in a custom node) reaches exactly the i-th leaf
+`tree_flatten` returned — every well-formed tree, registry, namespace, dict-order mode (no predicate).
+By `C04_path_of_accessor` the i-th accessor carries the same entries. -/
+theorem C04_path_reaches_leaf (cfg : Cfg) (hp : cfg.pred = Option.none) (t : PyObj) (ht : t.wf = true)
+    (ls : List PyObj) (sp : Spec) (h : flatten cfg t = .ok (ls, sp)) (hns : sp.ns = cfg.ns) :
+    ∃ ps, paths sp = .ok ps ∧ ps.length = ls.length ∧
+      ∀ (i : Nat) (p : List Key) (x : PyObj), ps[i]? = some p → ls[i]? = some x → PyObj.follow cfg t p = some x := by
+  have hself := flattenUpTo_self cfg hp t ht ls sp h hns
+  obtain ⟨e1, _⟩ := flatten_shapeOf cfg hp t ht ls sp h
+  obtain ⟨w1, g1⟩ := wg cfg (!cfg.insertionOrdered) t ht
+  obtain ⟨n1, r1⟩ := nr cfg (!cfg.insertionOrdered) t ht
+  have hk := eo cfg (!cfg.insertionOrdered) t
+  rw [e1, hns, flattenUpTo_enc cfg.reg _ w1] at hself
+  have hal := upTo_aligned cfg _ w1 hk n1 r1 g1 t [] ls hself
+  refine ⟨_, by rw [e1]; exact paths_enc _ w1 hk _ _, hal.length, ?_⟩
+  intro i p x h1 h2
+  have := hal.get i p x h1 h2
+  simpa [Reaches] using this
 
 /-- non-vacuity: `{"a": (*, *), "b": *}` has the three paths `a.0`, `a.1`, `b` -/
 def C04_demo : STree :=
